@@ -13,14 +13,67 @@ FMT = ("stream elements: sink.valid, sink.data, sink.first, sink.last, source.re
        "elements: port order of lean/LitexModel/Packet/Num.lean")
 
 
+# ---- glue (session 2).  Stage lists as the *documentation* of Buffer / SyncFIFO / Delay / ClockDomainCrossing gives
+# them (Lean: bufferStages, syncFifoStages, delayStages, cdcSameStages) and the delivery window of a pipeline of
+# stages: the product of the windows of its stages (Lean: `pipeB l + 1`, theorem `stages_no_livelock`).
+STAGE_B = {"w": 0, "v": 1, "r": 0, "f": 1, "b": 2}
+
+
+def _buf(pv, pr):
+    return (["v"] if pv else []) + (["r"] if pr else [])
+
+
+def stage_codes(name, ps):
+    if name == "buffer":
+        return _buf(ps[0], ps[1])
+    if name == "sfifo":
+        d, bf = ps
+        return [("b%d" if bf else "f%d") % d] if d >= 2 else _buf(1, 0) if d == 1 else []
+    if name == "delayn":
+        return ["v"] * ps[0]
+    if name == "cdcsame":
+        return _buf(1, 0) if ps[0] else []
+    return None
+
+
+def pipe_window(codes):
+    k = 1
+    for c in codes:
+        k *= STAGE_B[c[0]] + 1
+    return k
+
+
 def bounds(lean_open):
     """dict(k_hs, k_del, k_acc, coop_extra, stable, note) for a Lean machine name: the bounds K / K' / K_acc of the
     theorems `X_progress` / `X_no_livelock` / `X_accepts|X_progress` in lean/LitexProps/C04.lean.
     None = element not covered by C04 theorems."""
     ws = lean_open.split()
-    name, ps = ws[0], [int(w) for w in ws[1:]]
+    name = ws[0]
     B = lambda k_hs, k_del, k_acc=None, coop_extra=None, note=None: dict(
         k_hs=k_hs, k_del=k_del, k_acc=k_acc, coop_extra=coop_extra, stable=True, note=note)
+    if name in ("stages", "monitored"):
+        codes = ws[1:] if name == "stages" else ws[7:]
+        k = pipe_window(codes)                          # stages_no_livelock / monitored_no_livelock
+        return B(k, k, 1 if all(c in ("w", "v") for c in codes) else None,   # stages_accepts (connect/PipeValid only)
+                 note="window = product of the stage windows (Live.comp)")
+    if name == "bufferize":
+        bs, bd, pv, pr = [int(w) for w in ws[1:5]]
+        up = ws[5] == "up"
+        r = int(ws[6])
+        k = pipe_window(_buf(pv, pr) if bd else []) * ((r + 1) if up else 1) * pipe_window(_buf(pv, pr) if bs else [])
+        # bufferize_up_no_livelock / bufferize_down_no_livelock; bufferize_up_accepts when no PipeReady is involved
+        return B(k, k, 1 if up and (not pr or not (bs or bd)) else None,
+                 note="window = product of the windows of sink buffer, converter and source buffer (bufferize_good)")
+    ps = [int(w) for w in ws[1:]]
+    if name in ("buffer", "sfifo", "delayn", "cdcsame"):
+        return bounds(" ".join(["stages"] + stage_codes(name, ps)))
+    if name == "converter":
+        nf, nt = ps[0], ps[1]                           # converter_* theorems: the class chosen by converterKind
+        if nf < nt and nt % nf == 0:
+            return bounds("up %d" % (nt // nf))
+        if nf > nt and nf % nt == 0:
+            return bounds("down %d" % (nf // nt))
+        return bounds("down 1") if nf == nt else None
     if name == "pipevalid":
         return B(1, 2, 1)
     if name == "pipeready":
@@ -103,9 +156,11 @@ def _quick_twin(inner):
 
 def wrap_inst(inner, mode, quick=False):
     lo = getattr(inner, "lean_open", "")
-    if lo.split()[:1] == ["mux"]:
+    if type(inner).__name__ == "BrokenInst":       # props.c03's Safe wrapper: the (changed) constructor raised
+        raise RuntimeError(inner.name)
+    if lo.split()[:1] in (["mux"], ["muxw"]):
         return c04lib.RouteInst(inner, "mux")
-    if lo.split()[:1] == ["demux"]:
+    if lo.split()[:1] in (["demux"], ["demuxw"]):
         return c04lib.RouteInst(inner, "demux")
     if not hasattr(inner, "tokens") or not hasattr(inner, "apply"):
         return "%s: not a one-sink/one-source StreamInst" % getattr(inner, "name", "?")
@@ -368,11 +423,97 @@ def mk_chain_fb_pr(depth, layout, tokens=None):
                       capacity=depth + 2, tokens=tokens)
 
 
+def mk_monitored(codes, nb, w, delim_first, cfg, tokens=None):
+    """Pipeline(sink, stages..., source) whose source endpoint is watched by a stream.Monitor with `latch` held at 1
+    (Lean: `monitored (stages l)`, LitexModel/Stream/Monitored.lean).  Ports of a StreamInst followed by the four CSR
+    status values: the handshake must be that of the pipeline alone (Monitor transparency), the counters count it."""
+    from streamlib import StreamInst
+    from litex.gen import LiteXModule
+    from litex.soc.interconnect import stream
+    lay = [("data", nb)]
+
+    class P(LiteXModule):
+        def __init__(self):
+            self.sink, self.source = stream.Endpoint(lay), stream.Endpoint(lay)
+            mods = []
+            for k, c in enumerate(codes):
+                m = (stream.Endpoint(lay) if c == "w" else stream.PipeValid(lay) if c == "v" else
+                     stream.PipeReady(lay) if c == "r" else stream.SyncFIFO(lay, int(c[1:]), buffered=(c[0] == "b")))
+                if c != "w":
+                    setattr(self, "m%d" % k, m)
+                mods.append(m)
+            self.pipeline = stream.Pipeline(self.sink, *mods, self.source)
+            self.mon = stream.Monitor(self.source, count_width=w, with_tokens=bool(cfg[0]),
+                                      with_overflows=bool(cfg[1]), with_underflows=bool(cfg[2]),
+                                      with_packets=bool(cfg[3]), packet_delimiter="first" if delim_first else "last")
+
+    m = P()
+    cfg = tuple(int(bool(c)) for c in cfg)
+    inst = StreamInst("Monitor(w=%d,%s,%s) on Pipeline(%s)/%db" % (
+        w, "first" if delim_first else "last", "".join(n for n, c in zip("toup", cfg) if c), ",".join(codes), nb), m,
+        "monitored %d %d %d %d %d %d %s" % ((w, int(bool(delim_first))) + cfg + (" ".join(codes),)),
+        capacity=None, tokens=tokens)
+    stat = [getattr(m.mon, "_" + n).status if c else None
+            for n, c in zip(("tokens", "overflows", "underflows", "packets"), cfg)]
+    inst.netlist.set(m.mon.latch, 1)
+    o_sample = inst.sample
+
+    def sample():
+        return o_sample() + [inst.netlist.getu(x) if x is not None else 0 for x in stat]
+    inst.sample = sample
+    inst.qual = list(inst.qual) + [None] * 4
+    return inst
+
+
+class MonTransparent:
+    """props.c03's MonitorInst (a stream.Monitor on a free endpoint) with the C04 observation added: the Monitor must
+    not drive anything of the endpoint it watches — valid/ready/first/last read back as they were driven."""
+
+    def __init__(self, inner):
+        self.inner = inner
+        self.name, self.lean_open, self.netlist, self.qual = inner.name + "/transparent", inner.lean_open, inner.netlist, inner.qual
+        self.alphabet = inner.alphabet
+        self._rb = None
+
+    def apply(self, letter):
+        self.inner.apply(letter)
+
+    def sample(self):
+        n, ep = self.netlist, self.inner.ep
+        self._rb = (n.getu(ep.valid), n.getu(ep.ready), n.getu(ep.first), n.getu(ep.last))
+        return self.inner.sample()
+
+    def nontrivial(self, letter, outs):
+        return self.inner.nontrivial(letter, outs)
+
+    def gen(self, rng, t):
+        return self.inner.gen(rng, t)
+
+    def monitor(self):
+        me, mon = self, self.inner.monitor()
+
+        class M:
+            def observe(self, letter, outs):
+                if me._rb is not None and tuple(letter[2:6]) != me._rb:
+                    return ("the Monitor drives the endpoint it watches: (valid, ready, first, last) driven %r, read "
+                            "back %r" % (tuple(letter[2:6]), me._rb))
+                return mon.observe(letter, outs)
+        return M()
+
+
+def _is_monitor(job):
+    code = getattr(job.make, "__code__", None)
+    return code is not None and "mk_monitor" in code.co_names
+
+
 def jobs(tier):
     from props import c03
     quick = tier == "quick"
     J = []
-    for job in c03.jobs(tier):
+    for job in c03.jobs(tier) + c03.glue_jobs(tier):
+        if _is_monitor(job):
+            J.append(Job("B0", lambda job=job: MonTransparent(job.make()), cycles=1500 if quick else 15000, runs=1))
+            continue
         if _is_route(job):
             if job.mode == "A":
                 J.append(Job("R", _wrap(job), deadline_s=40 if quick else 400))
@@ -394,6 +535,17 @@ def jobs(tier):
                  deadline_s=40 if quick else 400))
     J.append(Job("B", lambda: wrap_inst(mk_chain_fb_pr(5, [("data", 64)]), "B"), cycles=2000 if quick else 20000,
                  runs=1 if quick else 2, watch_every=20))
+    # Monitor transparency: the handshake of a monitored pipeline is the handshake of the pipeline
+    mxm = 20000 if quick else 400000
+    J.append(Job("A", lambda: wrap_inst(mk_monitored(["v"], 1, 1, False, (1, 0, 0, 0), T2), "A"), max_states=mxm,
+                 deadline_s=40 if quick else 400))
+    J.append(Job("A", lambda: wrap_inst(mk_monitored(["r"], 1, 1, True, (0, 0, 0, 1), T2), "A"), max_states=mxm,
+                 deadline_s=40 if quick else 400))
+    if not quick:
+        J.append(Job("A", lambda: wrap_inst(mk_monitored(["v", "r"], 1, 1, False, (0, 1, 1, 0), T2), "A"), max_states=mxm,
+                     deadline_s=400))
+    J.append(Job("B", lambda: wrap_inst(mk_monitored(["v", "f3", "r"], 16, 8, False, (1, 1, 1, 1)), "B"),
+                 cycles=2000 if quick else 20000, runs=1 if quick else 2, watch_every=20))
     J += corner_jobs(tier)
     J += packet_jobs(tier)
     J.append(Job("A0", lambda: StatusInst(), max_states=10000))
